@@ -45,7 +45,7 @@ theorem realSigCheck_eq (tx : Tx) (i : Nat) (body key sc : Bytes) (ht : Nat) (hp
     (hsc : sc.length < 2 ^ 64) (hwf : FieldsWF tx) (hht : ht < 256) :
     realSigCheck tx i body key sc ht = ecdsaCheck body key (legacySighash sc tx i ht).1 := by
   unfold realSigCheck
-  rw [SighashProofs.raw_eq sc tx i ht hp hsc hwf (by omega)]
+  rw [SighashProofs.raw_eq sc tx i ht hp hsc hwf (SighashProofs.htRel_cast ht) (SighashProofs.packI_ht (by omega))]
 
 theorem realCtx_env (tx : Tx) (i : Nat) : (realCtx tx (i : Int)).env = realEnv tx i := by
   simp [realCtx]
